@@ -346,6 +346,9 @@ func coqTest(n *Node, t *TestSpec, defaultCode string) string {
 	if t.OptCode != nil {
 		code = *t.OptCode
 	}
+	if t.OptParams != nil {
+		params = t.OptParams
+	}
 	return fmt.Sprintf("(T %d %s %s %s %s %s)", t.ID, CoqStr(code), CoqOptStr(t.OptPath), CoqOptStr(t.OptMsg), coqParams(params), ok)
 }
 
